@@ -226,6 +226,7 @@ func (u *udpConnection) start(batchSize int, pool router.PacketPool) {
 	// Receiver task
 	go func() {
 		defer log.HandlePanic()
+		router.VerifActor("recv:"+u.name, 0)
 		u.receive(batchSize, pool)
 		close(u.receiverDone)
 	}()
@@ -233,6 +234,7 @@ func (u *udpConnection) start(batchSize int, pool router.PacketPool) {
 	// Forwarder task
 	go func() {
 		defer log.HandlePanic()
+		router.VerifActor("send:"+u.name, 0)
 		u.send(batchSize, pool)
 		close(u.senderDone)
 	}()
@@ -318,6 +320,7 @@ func (u *udpConnection) receive(batchSize int, pool router.PacketPool) {
 func readUpTo(queue <-chan *router.Packet, n int, needsBlocking bool, pkts []*router.Packet) int {
 	i := 0
 	if needsBlocking {
+		router.VerifYield("send.dequeue")
 		p, ok := <-queue
 		if !ok {
 			return i
@@ -327,6 +330,7 @@ func readUpTo(queue <-chan *router.Packet, n int, needsBlocking bool, pkts []*ro
 	}
 
 	for ; i < n; i++ {
+		router.VerifYield("send.dequeue-more")
 		select {
 		case p, ok := <-queue:
 			if !ok {
@@ -515,6 +519,7 @@ func (l *connectedLink) start(
 	}
 	go func() {
 		defer log.HandlePanic()
+		router.VerifActor("bfd:"+l.name, 0)
 		if err := l.bfdSession.Run(ctx); err != nil && !errors.Is(err, bfd.ErrAlreadyRunning) {
 			log.Error("BFD session failed to start", "remote address", l.name, "err", err)
 		}
@@ -554,6 +559,7 @@ func (l *connectedLink) Resolve(p *router.Packet, host addr.Host, port uint16) e
 }
 
 func (l *connectedLink) Send(p *router.Packet) bool {
+	router.VerifYield("link.send")
 	select {
 	case l.egressQ <- p:
 	default:
@@ -583,6 +589,7 @@ func (l *connectedLink) receive(size int, srcAddr *net.UDPAddr, p *router.Packet
 		metrics[sc].DroppedPacketsInvalid.Inc()
 		return
 	}
+	router.VerifYield("link.enqueue")
 	select {
 	case l.procQs[procID] <- p:
 	default:
@@ -683,6 +690,7 @@ func (l *detachedLink) start(
 	}
 	go func() {
 		defer log.HandlePanic()
+		router.VerifActor("bfd:"+l.name, 0)
 		if err := l.bfdSession.Run(ctx); err != nil && !errors.Is(err, bfd.ErrAlreadyRunning) {
 			log.Error("BFD session failed to start", "remote address", l.name, "err", err)
 		}
@@ -727,6 +735,7 @@ func (l *detachedLink) Send(p *router.Packet) bool {
 	// is pointless: if we loan l.remote we avoid a copy and still discard at most one address. This
 	// is safe because we treat p.RemoteAddr as immutable and the router main code doesn't touch it.
 	p.RemoteAddr = unsafe.Pointer(l.remote)
+	router.VerifYield("link.send")
 	select {
 	case l.egressQ <- p:
 	default:
@@ -757,6 +766,7 @@ func (l *detachedLink) receive(size int, srcAddr *net.UDPAddr, p *router.Packet)
 		metrics[sc].DroppedPacketsInvalid.Inc()
 		return
 	}
+	router.VerifYield("link.enqueue")
 	select {
 	case l.procQs[procID] <- p:
 	default:
@@ -864,7 +874,9 @@ func (l *internalLink) start(
 }
 
 func (l *internalLink) runProcessor() {
+	router.VerifActor("intproc", 0)
 	for {
+		router.VerifYield("intproc.recv")
 		select {
 		case p := <-l.procQ:
 			err := l.processPacket(p)
@@ -993,6 +1005,7 @@ func (l *internalLink) Resolve(p *router.Packet, dst addr.Host, port uint16) err
 
 // The packet's destination is already in the packet's meta-data.
 func (l *internalLink) Send(p *router.Packet) bool {
+	router.VerifYield("link.send")
 	select {
 	case l.egressQ <- p:
 	default:
@@ -1024,6 +1037,7 @@ func (l *internalLink) receive(size int, srcAddr *net.UDPAddr, p *router.Packet)
 	} else {
 		q = l.procQ
 	}
+	router.VerifYield("link.enqueue")
 	select {
 	case q <- p:
 	default:
